@@ -5,7 +5,19 @@ TSC = "porepy/numerics/time_step_control.py"
 
 AO = "porepy/utils/array_operations.py"
 
+AU = "porepy/numerics/ad/ad_utils.py"
+
 MUTANTS = {
+    "C08": [
+        {"name": "get_returns_storage", "file": AU, "old": "        value = data[loc][name][index].copy()", "new": "        value = data[loc][name][index]"},
+        {"name": "set_stores_argument", "file": AU, "old": "            data[loc][name][index] = values.copy()", "new": "            data[loc][name][index] = values"},
+        {"name": "shift_without_copy", "file": AU, "old": "        data[location][name][i] = data[location][name][i - 1].copy()", "new": "        data[location][name][i] = data[location][name][i - 1]"},
+        {"name": "shift_skips_index_1", "file": AU, "old": "            range_ = range(max_index - 1, 0, -1)", "new": "            range_ = range(max_index - 1, 1, -1)"},
+        {"name": "shift_ascending", "file": AU, "old": "            range_ = range(max_index - 1, 0, -1)", "new": "            range_ = range(1, max_index)"},
+        {"name": "additive_empty_silently_sets", "file": AU,
+         "old": "                raise ValueError(\n                    f\"Cannot set value additively for {name} at {(loc, index)}:\"\n                    + \" No values stored to add to.\"\n                )\n            data[loc][name][index] += values",
+         "new": "                data[loc][name][index] = 0 * values\n            data[loc][name][index] += values"},
+    ],
     "C46": [
         {"name": "revert_unique_2_all", "file": AO, "old": "unique_values = values[:, unique_2_all]", "new": "unique_values = values[:, all_2_unique]"},
         {"name": "revert_existing_index_order", "file": AO,
